@@ -3,6 +3,7 @@
 //   constpool random <trace.ndjson> <executions> <steps>
 #include <asmjit/core.h>
 #include <asmjit/x86.h>
+#include <asmjit/a64.h>
 #include "vjson.h"
 
 using namespace asmjit;
@@ -50,25 +51,26 @@ struct Exec {
   }
 
   // embed through a real assembler / builder: the bytes at the bound label must be the pool image
-  void embed(bool via_builder, unsigned pre) {
+  void embed(bool via_builder, unsigned pre, bool a64 = false) {
     CodeHolder code;
-    code.init(Environment(Arch::kX64));
-    x86::Assembler a(&code);
-    x86::Builder b;
-    BaseEmitter* e = &a;
-    if (via_builder) { code.detach(&a); code.attach(&b); e = &b; }
+    code.init(Environment(a64 ? Arch::kAArch64 : Arch::kX64));
+    x86::Assembler xa; x86::Builder xb;
+    a64::Assembler aa; a64::Builder ab;
+    BaseEmitter* e = a64 ? (via_builder ? static_cast<BaseEmitter*>(&ab) : &aa) : (via_builder ? static_cast<BaseEmitter*>(&xb) : &xa);
+    BaseBuilder* b = a64 ? static_cast<BaseBuilder*>(&ab) : &xb;
+    code.attach(e);
     uint8_t fillb[16];
     memset(fillb, 0x90, sizeof fillb);
     Error err = e->embed(fillb, pre);
     Label L = e->new_label();
     if (err == Error::kOk) err = e->embed_const_pool(L, pool);
-    if (err == Error::kOk && via_builder) err = b.finalize();
+    if (err == Error::kOk && via_builder) err = b->finalize();
     Section* text = code.text_section();
     size_t lab = 0;
     bool bound = code.is_label_bound(L);
     if (bound) lab = size_t(code.label_offset(L));
     size_t total = text->buffer_size();
-    w.beginObj().kv("e", "Embed").kv("via", via_builder ? "builder" : "asm").kv("r", err_name(err)).kv("pre", pre)
+    w.beginObj().kv("e", "Embed").kv("via", via_builder ? "builder" : "asm").kv("arch", a64 ? "a64" : "x64").kv("r", err_name(err)).kv("pre", pre)
      .kv("bound", bound).kv("lab", lab).kv("total", total);
     if (bound && lab <= total) w.bytes("image", text->data() + lab, total - lab);
     else w.bytes("image", nullptr, 0);
@@ -125,7 +127,7 @@ int main(int argc, char** argv) {
         ex.add(d);
       }
       ex.fill();
-      ex.embed(n & 1, n % 7);
+      ex.embed(n & 1, n % 7, (n >> 1) & 1);
       n++;
     }
     fclose(out);
@@ -147,8 +149,8 @@ int main(int argc, char** argv) {
         if (r.chance(1, 12)) ex.fill();
       }
       ex.fill();
-      ex.embed(false, (unsigned)r.below(9));
-      ex.embed(true, (unsigned)r.below(9));
+      ex.embed(false, (unsigned)r.below(9), r.chance(1, 2));
+      ex.embed(true, (unsigned)r.below(9), r.chance(1, 2));
     }
     fclose(out);
     return 0;
